@@ -110,7 +110,7 @@ func buildGeneric(ct c13Content, r *Rng) *jwt.GenericClaims {
 }
 
 func runC13(c *Ctx) {
-	c.Res.Rule = "equal contents built through random insertion orders of signing keys (plain, scoped, and scoped entries whose Key field was re-keyed to collide with another entry), account and export revocations, mappings, limit tiers and generic data (incl. a nested object); each object encoded repeatedly in one process (the runtime re-randomises map iteration per loop) under GOMAXPROCS 1 and 16; all tokens whose issue time agrees must be byte-identical, across objects and across repetitions. Each object also goes through the Lean model's Encode. non-trivial = distinct contents."
+	c.Res.Rule = "equal contents built through random insertion orders of signing keys (plain, scoped, and scoped entries whose Key field was re-keyed to collide with another entry), account and export revocations, mappings, limit tiers and generic data (incl. a nested object); every third object first encoded with different standard fields and then edited back (equal content through a different history); each object encoded repeatedly in one process (the runtime re-randomises map iteration per loop) under GOMAXPROCS 1 and 16; all tokens whose issue time agrees must be byte-identical, across objects and across repetitions. Each object also goes through the Lean model's Encode. non-trivial = distinct contents."
 	old := runtime.GOMAXPROCS(0)
 	defer runtime.GOMAXPROCS(old)
 	nContents := c.N(60, 3000)
@@ -161,6 +161,17 @@ func runC13(c *Ctx) {
 						cl = buildAccount(ct, c.R)
 					} else {
 						cl = buildGeneric(ct, c.R)
+					}
+					if o%3 == 1 {
+						// same content reached through a different HISTORY: the object was encoded before while its
+						// standard fields still read differently, then edited to the final content
+						cd := cl.Claims()
+						name, exp, nbf, aud := cd.Name, cd.Expires, cd.NotBefore, cd.Audience
+						cd.Name, cd.Expires, cd.NotBefore, cd.Audience = "earlier "+name, exp+77, nbf+5, aud+"x"
+						_, err := cl.Encode(kp)
+						must(err)
+						cd.Name, cd.Expires, cd.NotBefore, cd.Audience = name, exp, nbf, aud
+						c.Count("history-variant")
 					}
 					for rep := 0; rep < reps; rep++ {
 						var tok string
